@@ -1,6 +1,7 @@
 import DoviModel.Model.Ops
 import DoviModel.Proofs.ConvertProof
 import DoviModel.Proofs.WfPreserve
+import DoviModel.Gen.SourceRules
 /-! # C04 — profile conversion modes do what is documented and preserve dynamic metadata -/
 namespace Dovi.C04
 open Dovi
@@ -714,5 +715,32 @@ example : RpuWf okRpu ∧ (∀ m, ConvLimits m okRpu) ∧
       okOr (writeRpu (okOr (okRpu.convertWithMode .to81MappingPreserved))), by decide, by decide⟩
 
 end Reparse
+
+/-- **source tie** (Gen/SourceRules.lean is regenerated from /repo on every run by tools/gen_source_rules.py):
+`From<u8> for ConversionMode` and, per mode, the profiles for which `convert_with_mode` computes
+`valid_conversion = true`, as they stand in the Rust sources now, are the mode table and the accept/reject
+decisions of the model: a mode applied to a profile outside its list fails, a mode without a list never fails on
+the profile test -/
+theorem source_modes_agree :
+    (∀ n, Src.modeOfU8 n = modeOfU8 n) ∧
+    (∀ (r : Rpu) (m : Mode) (ps : List Nat), Src.modeAccepts m = some ps → r.dovi_profile ∉ ps →
+        r.convertWithMode m = .error) ∧
+    (∀ (r : Rpu) (m : Mode), Src.modeAccepts m = none → ∃ r', r.convertWithMode m = .ok r') ∧
+    (∀ (r : Rpu) (m : Mode) (ps : List Nat), Src.modeAccepts m = some ps → r.dovi_profile ∈ ps → m ≠ .toMel →
+        ∃ r', r.convertWithMode m = .ok r') := by
+  refine ⟨?_, ?_, ?_, ?_⟩
+  · intro n
+    unfold Src.modeOfU8 modeOfU8
+    split <;> first | rfl | (split <;> first | rfl | simp_all)
+  · intro r m ps hm hp
+    cases m <;> simp [Src.modeAccepts] at hm <;> subst hm <;> simp at hp <;>
+      simp [Rpu.convertWithMode, hp]
+  · intro r m hm
+    cases m <;> simp [Src.modeAccepts] at hm <;> simp [Rpu.convertWithMode]
+  · intro r m ps hm hp hne
+    cases m <;> simp [Src.modeAccepts] at hm <;> subst hm <;> simp at hp
+    · exact absurd rfl hne
+    · rcases hp with h | h | h <;> simp [Rpu.convertWithMode, h]
+    · rcases hp with h | h <;> simp [Rpu.convertWithMode, h]
 
 end Dovi.C04
